@@ -30,7 +30,8 @@ fn arg(args: &[String], name: &str) -> Option<String> {
 fn budgets(prop: &str, tier: &str) -> u64 {
     // run counts calibrated so that quick is about a minute and thorough about ten on 16 cores
     let quick: u64 = match prop {
-        "C01" | "C17" | "C18" => 30000,
+        "C01" | "C17" => 30000,
+        "C18" => 16000,
         "C02" | "C03" | "C15" | "C20" => 25000,
         "C04" | "C05" | "C06" | "C10" | "C12" | "C16" => 20000,
         "C11" => 18000,
